@@ -29,6 +29,7 @@ Record bo := mkBo {
   b_sleep : list (Z * Z); b_times : list (Z * Z);   (* backoffSleepMS, backoffTimes *)
   b_parent : option nat;
   b_live : bool;                            (* false once handed to UpdateUsingForked (contract) *)
+  b_keep : bool;                            (* keepGoingWhenKilled: back-offs are not ended by the kill flag *)
   b_hi : option Z                           (* GHOST (not in the code): largest budget under which the current
                                                total was accumulated; None = some unlimited budget took part *)
 }.
@@ -52,7 +53,8 @@ Inductive op :=
 | OCancel (c : nat)
 | OKill (v : nat) (sig : Z)
 | OSetErr (cid : Z) (err : Z)               (* Config.SetErrors on the config with pointer identity cid *)
-| OSetCtx (i : nat) (c : nat).              (* bos[i].SetCtx(ctx c) *)
+| OSetCtx (i : nat) (c : nat)               (* bos[i].SetCtx(ctx c) *)
+| OKeepGoing (i : nat).                     (* bos[i].KeepGoingWhenKilled() *)
 
 Inductive res :=
 | RNone                                      (* op without a result *)
@@ -160,6 +162,9 @@ Definition killed_sig (w : world) (b : bo) : Z :=
   | None => 0
   end.
 
+(* the kill signal as Backoff sees it: `if !b.keepGoingWhenKilled { CheckKilled() }` *)
+Definition kill_eff (w : world) (b : bo) : Z := if b_keep b then 0 else killed_sig w b.
+
 Definition fn_base (e : env) (w : world) (b : bo) (c : cfg) : option Z :=
   if existsb (Z.eqb (c_name c)) (e_lfnames e)
   then match b_vars b with
@@ -191,7 +196,7 @@ Definition slept_bo (e : env) (b : bo) (c : cfg) (f : fnst) (s maxms errid : Z) 
        (aset name (fn_next f s) (b_fn b))
        (fst (push_err b errid)) (snd (push_err b errid)) (b_cfgs b ++ [c])
        (zadd name real (b_sleep b)) (zadd name 1 (b_times b))
-       (b_parent b) true (b_hi b).
+       (b_parent b) true (b_keep b) (b_hi b).
 
 Definition do_backoff (e : env) (w : world) (i : nat) (c : cfg) (maxms errid s : Z) : world * res :=
   match nth_error (w_bos w) i with
@@ -207,7 +212,7 @@ Definition do_backoff (e : env) (w : world) (i : nat) (c : cfg) (maxms errid s :
       | Some f =>
         if negb (sleep_ok f s) then (w, RBad)
         else
-          let k := killed_sig w b in
+          let k := kill_eff w b in
           (set_bo w i (slept_bo e b c f s maxms errid),
            if k =? 0 then ROk (cut s maxms) else RKilled (cut s maxms) k)
       end
@@ -215,7 +220,7 @@ Definition do_backoff (e : env) (w : world) (i : nat) (c : cfg) (maxms errid s :
 
 Definition copy_bo (b : bo) (ctx : nat) (parent : option nat) : bo :=
   mkBo ctx false (b_vars b) (b_max b) (b_total b) (b_excl b) [] (b_errs b) (b_errnum b)
-       (b_cfgs b) (b_sleep b) (b_times b) parent true (b_hi b).
+       (b_cfgs b) (b_sleep b) (b_times b) parent true (b_keep b) (b_hi b).
 
 (* is [i] on the parent chain that starts at [p]? *)
 Fixpoint on_chain (fuel : nat) (bs : list bo) (p : option nat) (i : nat) : bool :=
@@ -227,22 +232,23 @@ Fixpoint on_chain (fuel : nat) (bs : list bo) (p : option nat) (i : nat) : bool 
 
 Definition merged (b f : bo) : bo :=
   mkBo (b_ctx b) (b_noop b) (b_vars b) (b_max b) (b_total f) (b_excl f) (b_fn b)
-       (b_errs f) (b_errnum f) (b_cfgs f) (b_sleep f) (b_times f) (b_parent b) (b_live b)
+       (b_errs f) (b_errnum f) (b_cfgs f) (b_sleep f) (b_times f) (b_parent b) (b_live b) (b_keep b)
        (join_hi (budget_hi (b_max b)) (b_hi f)).
 Definition kill_bo (f : bo) : bo :=
   mkBo (b_ctx f) (b_noop f) (b_vars f) (b_max f) (b_total f) (b_excl f) (b_fn f)
-       (b_errs f) (b_errnum f) (b_cfgs f) (b_sleep f) (b_times f) (b_parent f) false (b_hi f).
+       (b_errs f) (b_errnum f) (b_cfgs f) (b_sleep f) (b_times f) (b_parent f) false (b_keep f) (b_hi f).
 
 Definition reset_bo (b : bo) (m : Z) : bo :=
   mkBo (b_ctx b) (b_noop b) (b_vars b) m 0 0 [] (b_errs b) (b_errnum b)
-       (b_cfgs b) (b_sleep b) (b_times b) (b_parent b) (b_live b) (budget_hi m).
+       (b_cfgs b) (b_sleep b) (b_times b) (b_parent b) (b_live b) (b_keep b) (budget_hi m).
 
-Definition with_ctx (b : bo) (c : nat) : bo :=
+(* SetCtx / KeepGoingWhenKilled: the context and the keep-going flag are the only fields that change *)
+Definition with_ctx (b : bo) (c : nat) (k : bool) : bo :=
   mkBo c (b_noop b) (b_vars b) (b_max b) (b_total b) (b_excl b) (b_fn b) (b_errs b) (b_errnum b)
-       (b_cfgs b) (b_sleep b) (b_times b) (b_parent b) (b_live b) (b_hi b).
+       (b_cfgs b) (b_sleep b) (b_times b) (b_parent b) (b_live b) k (b_hi b).
 
 Definition empty_bo (ctx : nat) (noop : bool) (v : option nat) (m : Z) : bo :=
-  mkBo ctx noop v m 0 0 [] [0; 0; 0] 0 [] [] [] None true (budget_hi m).
+  mkBo ctx noop v m 0 0 [] [0; 0; 0] 0 [] [] [] None true false (budget_hi m).
 
 Definition step (e : env) (w : world) (o : op) : world * res :=
   match o with
@@ -315,8 +321,13 @@ Definition step (e : env) (w : world) (o : op) : world * res :=
   | OSetErr cid err => (mkWorld (w_bos w) (w_ctxs w) (w_vars w) (aset cid err (w_cerr w)), RNone)
   | OSetCtx i c =>
     match nth_error (w_bos w) i, nth_error (w_ctxs w) c with
-    | Some b, Some _ => if b_live b then (set_bo w i (with_ctx b c), RNone) else (w, RBad)
+    | Some b, Some _ => if b_live b then (set_bo w i (with_ctx b c (b_keep b)), RNone) else (w, RBad)
     | _, _ => (w, RBad)
+    end
+  | OKeepGoing i =>
+    match nth_error (w_bos w) i with
+    | Some b => if b_live b then (set_bo w i (with_ctx b (b_ctx b) true), RNone) else (w, RBad)
+    | None => (w, RBad)
     end
   end.
 
